@@ -156,3 +156,65 @@ def remote_paths(client) -> dict[str, str]:
         for item in d.items:
             out[item.filename] = item.get_remote_path()
     return out
+
+
+class Uploader:
+    """Plays the uploading side against the real downloading client (honest, optionally slow)."""
+
+    def __init__(self, w: World, peer: SimPeer, client_name: str, client_port: int, rng: random.Random,
+                 files: dict[str, bytes]):
+        self.w, self.peer, self.client_name, self.client_port, self.rng, self.files = w, peer, client_name, client_port, rng, files
+        self.offer_lat = 0.05          # delay between the queue request and our PeerTransferRequest
+        self.chunk = 2048
+        self.chunk_gap = 0.05          # seconds between chunks (slow sender keeps the transfer in flight)
+        self.queue_requests: list[tuple[float, str]] = []
+        self.replies: list[tuple[float, Any]] = []
+        self.ticket = 5000
+        self.active = True
+        peer.on_frame = self._on_frame
+
+    def _on_frame(self, link: PeerLink, msg):
+        if isinstance(msg, PeerTransferQueue.Request):
+            self.queue_requests.append((self.w.now, msg.filename))
+            if self.active and msg.filename in self.files:
+                self.w.spawn(self.peer.name, self._serve(link, msg.filename), name=f'peer-{self.peer.name}-serve')
+        elif isinstance(msg, PeerTransferReply.Request):
+            self.replies.append((self.w.now, msg))
+
+    async def _serve(self, link: PeerLink, filename: str):
+        await asyncio.sleep(self.offer_lat)
+        self.ticket += 1
+        ticket = self.ticket
+        data = self.files[filename]
+        if link.closed or link.writer.is_closing():
+            try:
+                link = await self.peer.dial(self.client_port, 'P', host=self.w.net.ip_of(self.client_name))
+            except (ConnectionError, OSError):
+                return
+        link.send(PeerTransferRequest.Request(1, ticket, filename, filesize=len(data)))
+        for _ in range(600):
+            await asyncio.sleep(0.05)
+            rep = [m for _, m in self.replies if m.ticket == ticket]
+            if rep:
+                break
+        else:
+            return
+        if not rep[0].allowed:
+            return
+        try:
+            f = await self.peer.dial(self.client_port, 'F', host=self.w.net.ip_of(self.client_name))
+        except (ConnectionError, OSError):
+            return
+        f.send_raw(ticket.to_bytes(4, 'little'))
+        off = await f.read_exactly(8)
+        if off is None:
+            return
+        pos = int.from_bytes(off, 'little')
+        while pos < len(data):
+            if f.writer.is_closing() or f.writer.transport._lost:
+                return
+            f.send_raw(data[pos:pos + self.chunk])
+            pos += self.chunk
+            await asyncio.sleep(self.chunk_gap)
+        await f.read_some()
+        f.close()
